@@ -1557,6 +1557,12 @@ def build(template_text: str, repo: str, unit: str) -> Built:
                 fs = next((t for t in ctoks if t.kind not in (WS, COMMENT)), None)
                 ctxt = ("pub " if fs is not None and fs.kind == IDENT and fs.text == "const" else "") + text_of(ctoks)
                 emit(f"// ---- auto-extracted (R15) {rel}:{sf.line_of(citem.start)} :: const {cname} ----")
+                init = ctxt.split("=", 1)[1] if "=" in ctxt else ""
+                if re.search(r"[A-Za-z_]\w*\s*(::\s*<[^>]*>\s*)?\(", init):
+                    # the initializer calls a function (`0x0001_u16.to_be_bytes()`): outside what Verus evaluates for a
+                    # constant; the constant is declared with its value left open
+                    emit("#[verifier::external_body]")
+                    rep.append(("R15", f"const {cname}: initializer is a call, value left opaque (external_body)"))
                 emit(ctxt)
                 auto_consts.add(cname)
                 rep.append(("R15", f"const {cname} of {rel} extracted automatically"))
